@@ -1,8 +1,8 @@
 SPECIFICATION Spec
-CONSTANTS Keys <- Keys3
+CONSTANTS Keys <- Keys4
  Vals = {"L"}
  Path <- McPath
- Variants <- VarHQuick
+ Variants <- VarHAll
  MaxOld = 0
  ReopenModes = {"same"}
  Ticking = FALSE
